@@ -22,7 +22,7 @@ import (
 	"github.com/lrstanley/girc"
 )
 
-func TestPendingC08_AckRemoval(t *testing.T) {
+func TestC08_AckRemoval(t *testing.T) {
 	s := drive.Start(drive.BaseConfig())
 	defer s.Stop()
 
